@@ -6,8 +6,14 @@
     [crypto_ok P] (decryption under a key succeeds only on outputs of encryption under that key and returns the
     encrypted plaintext; round trips), [own_ct P key log b] (key secrecy: if the presented bearer [b] is a
     ciphertext under the instance key at all, it is one the instance's login produced), [b64_strict P], [key_sep P].
-    [run P st0 ops = Some (st, log)]: the daemon reached state [st] from its start by the requests [ops]; [log] is
-    the list of tokens its login handed out. *)
+    [start cfg key sender = Some st0]: a daemon started on a storage holding session key [key]; [sender] is the
+    random sender id of its nonces. [run P st0 ops = Some (st, log)]: it reached state [st] by the requests and
+    restarts [ops] (a restart may come with an edited configuration and draws a new sender id); [log] is the list
+    of tokens its logins handed out.
+
+    The model describes the tree with the repairs e31fb922 (F20d), a6855108 (F20b), a7a0b51d (F20c). The
+    theorems named [..._pinned...] are regression witnesses: the same statements are refuted for the model of the
+    originally pinned tree ([pinned] in authn/AuthChain.v). *)
 From Coq Require Import String.
 From KV Require Import base.Tac auth.Perm auth.Routes authn.AuthChain authn.AuthToy authn.AuthProofs authn.AuthTie.
 From KV Require Import gen.GenAuthn gen.GenRoutes.
@@ -20,83 +26,102 @@ Proof. exact authn_shapes_recognised. Qed.
 Theorem C20_chain_shapes_recognised : gen_shapes_unrecognised = [].
 Proof. exact chain_shapes_recognised. Qed.
 
-(** Who a request acts as (one life of the daemon) *)
-Theorem C20_auth_identity : forall P cfg key st0 ops st log rq st' u r,
-  crypto_ok P -> start cfg key = Some st0 -> run P st0 ops = Some (st, log) -> no_restart ops ->
-  (forall b, rq_bearer rq = Some b -> own_ct P key log b) ->
-  authenticate P st rq = (st', AUser u r) ->
-  (rq_bearer rq = Some (cf_admin_token cfg) /\ u = admin_actor /\ r = role_admin)
-  \/ (exists b i, rq_bearer rq = Some b /\ In i log /\ same_bytes P b (is_tok i) /\ u = s_user (is_sess i)
-        /\ login_facts P cfg (is_sess i) /\ cfg_role cfg u = Some r)
-  \/ (exists rn, rq_tr rq = Unix u /\ alookup u (cf_unix cfg) = Some rn /\ alookup rn (cf_roles cfg) = Some r).
-Proof. exact auth_identity. Qed.
-
-Theorem C20_auth_identity_strict : forall P cfg key st0 ops st log rq st' u r,
-  crypto_ok P -> b64_strict P -> start cfg key = Some st0 -> run P st0 ops = Some (st, log) -> no_restart ops ->
-  (forall b, rq_bearer rq = Some b -> own_ct P key log b) ->
-  authenticate P st rq = (st', AUser u r) ->
-  (rq_bearer rq = Some (cf_admin_token cfg) /\ u = admin_actor /\ r = role_admin)
-  \/ (exists i, In i log /\ rq_bearer rq = Some (is_tok i) /\ u = s_user (is_sess i)
-        /\ login_facts P cfg (is_sess i) /\ cfg_role cfg u = Some r)
-  \/ (exists rn, rq_tr rq = Unix u /\ alookup u (cf_unix cfg) = Some rn /\ alookup rn (cf_roles cfg) = Some r).
-Proof. exact auth_identity_strict. Qed.
-
-(** Across restarts with an edited configuration: the strongest statement that holds ... *)
-Theorem C20_auth_identity_any_run : forall P cfg key st0 ops st log rq st' u r,
-  crypto_ok P -> start cfg key = Some st0 -> run P st0 ops = Some (st, log) ->
+(** Who a request acts as - in every run, restarts with an edited configuration included: the role is the one
+    the configuration gives the user NOW, and a user who is no longer configured is nobody. *)
+Theorem C20_auth_identity : forall P cfg key sender st0 ops st log rq st' u r,
+  crypto_ok P -> start cfg key sender = Some st0 -> run P st0 ops = Some (st, log) ->
   (forall b, rq_bearer rq = Some b -> own_ct P key log b) ->
   authenticate P st rq = (st', AUser u r) ->
   (rq_bearer rq = Some (cf_admin_token (i_cfg st)) /\ u = admin_actor /\ r = role_admin)
   \/ (exists b i, rq_bearer rq = Some b /\ In i log /\ same_bytes P b (is_tok i) /\ u = s_user (is_sess i)
-        /\ login_facts P (is_cfg i) (is_sess i)
-        /\ alookup (s_role (is_sess i)) (cf_roles (i_cfg st)) = Some r)
+        /\ login_facts P (is_cfg i) (is_sess i) /\ cfg_role (i_cfg st) u = Some r)
   \/ (exists rn, rq_tr rq = Unix u /\ alookup u (cf_unix (i_cfg st)) = Some rn
         /\ alookup rn (cf_roles (i_cfg st)) = Some r).
-Proof. exact auth_identity_any_run. Qed.
+Proof. exact auth_identity. Qed.
 
-(** ... and the statement with "the role the configuration now gives that user", which fails (candidate F20c) *)
-Theorem C20_auth_identity_restart_refuted : ~ auth_identity_restart_full.
-Proof. exact auth_identity_restart_refuted. Qed.
+Theorem C20_auth_identity_strict : forall P cfg key sender st0 ops st log rq st' u r,
+  crypto_ok P -> b64_strict P -> start cfg key sender = Some st0 -> run P st0 ops = Some (st, log) ->
+  (forall b, rq_bearer rq = Some b -> own_ct P key log b) ->
+  authenticate P st rq = (st', AUser u r) ->
+  (rq_bearer rq = Some (cf_admin_token (i_cfg st)) /\ u = admin_actor /\ r = role_admin)
+  \/ (exists i, In i log /\ rq_bearer rq = Some (is_tok i) /\ u = s_user (is_sess i)
+        /\ login_facts P (is_cfg i) (is_sess i) /\ cfg_role (i_cfg st) u = Some r)
+  \/ (exists rn, rq_tr rq = Unix u /\ alookup u (cf_unix (i_cfg st)) = Some rn
+        /\ alookup rn (cf_roles (i_cfg st)) = Some r).
+Proof. exact auth_identity_strict. Qed.
 
-Theorem C20_token_valid_forever : forall P cfg key st0 ops st log i r tr,
-  crypto_ok P -> start cfg key = Some st0 -> run P st0 ops = Some (st, log) ->
+(** regression witness F20c: on the pinned tree a removed user's token kept its role *)
+Theorem C20_auth_identity_pinned_refuted : ~ auth_identity_on pinned.
+Proof. exact auth_identity_pinned_refuted. Qed.
+
+(** Token lifetime: no expiry, logout and cache eviction do not revoke - within the configured user set *)
+Theorem C20_token_valid_forever : forall P cfg key sender st0 ops st log i r tr,
+  crypto_ok P -> start cfg key sender = Some st0 -> run P st0 ops = Some (st, log) ->
   In i log -> cf_auth (i_cfg st) = ConfigFile -> is_tok i <> cf_admin_token (i_cfg st) ->
-  alookup (s_role (is_sess i)) (cf_roles (i_cfg st)) = Some r ->
+  cfg_role (i_cfg st) (s_user (is_sess i)) = Some r ->
   snd (authenticate P st (mkRq (Some (is_tok i)) tr)) = AUser (s_user (is_sess i)) r.
 Proof. exact token_valid_forever. Qed.
 
-(** Login *)
+Theorem C20_removed_user_token_refused : forall P cfg key sender st0 ops st log i tr,
+  crypto_ok P -> start cfg key sender = Some st0 -> run P st0 ops = Some (st, log) ->
+  In i log -> cf_auth (i_cfg st) = ConfigFile -> is_tok i <> cf_admin_token (i_cfg st) ->
+  alookup (s_user (is_sess i)) (cf_users (i_cfg st)) = None ->
+  snd (authenticate P st (mkRq (Some (is_tok i)) tr)) = snd (authenticate P st (mkRq None tr)).
+Proof. exact removed_user_token_refused. Qed.
+
+(** Login: exactly the configured user of the submitted name with the matching password whose role permits
+    login, as that user - for every configuration *)
 Theorem C20_login_iff : forall P st name pw b id rn,
-  cf_auth (i_cfg st) = ConfigFile -> names_normal P (i_cfg st) ->
+  cf_auth (i_cfg st) = ConfigFile ->
   ((exists st' tok, login P st (Some (name, pw)) b = (st', LOk tok id rn)) <->
    (exists d r, alookup name (cf_users (i_cfg st)) = Some d /\ u_salt_hex d = true
-      /\ p_pw_ok P (u_cred d) name (p_norm P pw) = true
+      /\ p_pw_ok P (u_cred d) (p_norm P name) (p_norm P pw) = true
       /\ alookup (u_role d) (cf_roles (i_cfg st)) = Some r /\ is_allowed r Login None = true
       /\ id = name /\ rn = u_role d)).
 Proof. exact login_iff. Qed.
 
-Theorem C20_login_sound : forall P st name pw b st' tok id rn,
+Theorem C20_login_identity : forall P st name pw b st' tok id rn,
   crypto_ok P -> cf_auth (i_cfg st) = ConfigFile ->
   login P st (Some (name, pw)) b = (st', LOk tok id rn) ->
-  id = p_norm P name /\ login_facts P (i_cfg st) (mkSess id rn).
-Proof. exact login_sound. Qed.
+  exists d, alookup name (cf_users (i_cfg st)) = Some d /\ id = name /\ rn = u_role d
+            /\ p_pw_ok P (u_cred d) (p_norm P name) (p_norm P pw) = true.
+Proof. exact login_identity. Qed.
 
-(** Without the hypothesis on the configured names both directions fail (candidate F20b) *)
-Theorem C20_login_identity_refuted : ~ login_identity_full.
-Proof. exact login_identity_refuted. Qed.
+Theorem C20_login_complete : forall P st name pw b d r,
+  crypto_ok P -> cf_auth (i_cfg st) = ConfigFile ->
+  alookup name (cf_users (i_cfg st)) = Some d -> u_salt_hex d = true ->
+  p_pw_ok P (u_cred d) (p_norm P name) (p_norm P pw) = true ->
+  alookup (u_role d) (cf_roles (i_cfg st)) = Some r -> is_allowed r Login None = true ->
+  exists st' tok, login P st (Some (name, pw)) b = (st', LOk tok name (u_role d)).
+Proof. exact login_complete. Qed.
 
-Theorem C20_login_complete_refuted : ~ login_complete_full.
-Proof. exact login_complete_refuted. Qed.
+(** What still depends on the form of a configured name: the name that went into the weak salt when the stored
+    hash was made ([n0]; `krillc config user` takes NFKC(id) without trimming) must be the trimmed NFKC form the
+    daemon computes - a configured name with an outer blank cannot log in (AuthProofs.login_blank_name_witness) *)
+Theorem C20_login_needs_salt_name : forall P st name pw b d r n0,
+  cf_auth (i_cfg st) = ConfigFile ->
+  alookup name (cf_users (i_cfg st)) = Some d -> u_salt_hex d = true ->
+  made_from P (u_cred d) n0 (p_norm P pw) ->
+  alookup (u_role d) (cf_roles (i_cfg st)) = Some r -> is_allowed r Login None = true ->
+  ((exists st' tok, login P st (Some (name, pw)) b = (st', LOk tok name (u_role d))) <-> p_norm P name = n0).
+Proof. exact login_needs_salt_name. Qed.
+
+(** regression witnesses F20b: on the pinned tree both directions failed *)
+Theorem C20_login_identity_pinned_refuted : ~ login_identity_on (login_with pinned).
+Proof. exact login_identity_pinned_refuted. Qed.
+
+Theorem C20_login_complete_pinned_refuted : ~ login_complete_on (login_with pinned).
+Proof. exact login_complete_pinned_refuted. Qed.
 
 (** A credential that is not genuine gains nothing *)
-Theorem C20_bad_credential_no_gain : forall P cfg key st0 ops st log b tr,
-  crypto_ok P -> start cfg key = Some st0 -> run P st0 ops = Some (st, log) ->
+Theorem C20_bad_credential_no_gain : forall P cfg key sender st0 ops st log b tr,
+  crypto_ok P -> start cfg key sender = Some st0 -> run P st0 ops = Some (st, log) ->
   own_ct P key log b -> ~ genuine P (i_cfg st) log b ->
   authenticate P st (mkRq (Some b) tr) = authenticate P st (mkRq None tr).
 Proof. exact bad_credential_no_gain. Qed.
 
-Theorem C20_refused_everywhere : forall P cfg key st0 ops st log b tr,
-  crypto_ok P -> start cfg key = Some st0 -> run P st0 ops = Some (st, log) ->
+Theorem C20_refused_everywhere : forall P cfg key sender st0 ops st log b tr,
+  crypto_ok P -> start cfg key sender = Some st0 -> run P st0 ops = Some (st, log) ->
   own_ct P key log b -> ~ genuine P (i_cfg st) log b ->
   (tr = Tcp \/ exists p, tr = Unix p /\ alookup p (cf_unix (i_cfg st)) = None) ->
   let a := snd (authenticate P st (mkRq (Some b) tr)) in
@@ -106,32 +131,43 @@ Theorem C20_refused_everywhere : forall P cfg key st0 ops st log b tr,
   /\ actor_name a = "anonymous"%string.
 Proof. exact refused_everywhere. Qed.
 
-Theorem C20_bad_credential_unix_peer : forall P cfg key st0 ops st log b p r,
-  crypto_ok P -> start cfg key = Some st0 -> run P st0 ops = Some (st, log) ->
+Theorem C20_bad_credential_unix_peer : forall P cfg key sender st0 ops st log b p r,
+  crypto_ok P -> start cfg key sender = Some st0 -> run P st0 ops = Some (st, log) ->
   own_ct P key log b -> ~ genuine P (i_cfg st) log b -> alookup p (i_unix st) = Some r ->
   authenticate P st (mkRq (Some b) (Unix p)) = (st, AUser p r).
 Proof. exact bad_credential_unix_peer. Qed.
 
 Theorem C20_other_instance_token_rejected :
-  forall P cfgA keyA stA0 opsA stA logA cfgB keyB stB0 opsB stB logB i tr,
+  forall P cfgA keyA sA stA0 opsA stA logA cfgB keyB sB stB0 opsB stB logB i tr,
   crypto_ok P -> key_sep P -> keyA <> keyB ->
-  start cfgA keyA = Some stA0 -> run P stA0 opsA = Some (stA, logA) ->
-  start cfgB keyB = Some stB0 -> run P stB0 opsB = Some (stB, logB) ->
+  start cfgA keyA sA = Some stA0 -> run P stA0 opsA = Some (stA, logA) ->
+  start cfgB keyB sB = Some stB0 -> run P stB0 opsB = Some (stB, logB) ->
   In i logB -> is_tok i <> cf_admin_token (i_cfg stA) ->
   authenticate P stA (mkRq (Some (is_tok i)) tr) = authenticate P stA (mkRq None tr).
 Proof. exact other_instance_token_rejected. Qed.
 
-(** Nonces *)
-Theorem C20_nonces_fresh : forall P cfg key st0 ops st log,
-  crypto_ok P -> start cfg key = Some st0 -> run P st0 ops = Some (st, log) -> no_restart ops ->
-  NoDup (map is_nonce log).
+(** Nonces: distinct sender ids at the starts of the daemon => no (key, nonce) pair is used for two tokens.
+    That the random 32-bit sender ids differ is an assumption (trusted base), here the premise [NoDup ...]. *)
+Theorem C20_nonces_fresh : forall P cfg key sender st0 ops st log,
+  crypto_ok P -> start cfg key sender = Some st0 -> run P st0 ops = Some (st, log) ->
+  NoDup (sender :: op_senders ops) -> NoDup (map is_nonce log).
 Proof. exact nonces_fresh. Qed.
 
-Theorem C20_nonce_reuse_after_restart :
-  exists P cfg key st0 ops st log i j,
-    crypto_ok P /\ start cfg key = Some st0 /\ run P st0 ops = Some (st, log)
+Theorem C20_issued_under_own_nonce : forall P cfg key sender st0 ops st log i,
+  crypto_ok P -> start cfg key sender = Some st0 -> run P st0 ops = Some (st, log) -> In i log ->
+  is_tok i = p_b64enc P (p_encrypt P key (is_nonce i) (p_ser P (is_sess i))).
+Proof. exact issued_under_own_nonce. Qed.
+
+(** regression witnesses F20d: on the pinned tree a restart repeated the nonces whatever the sender ids *)
+Theorem C20_nonce_reuse_pinned :
+  exists P cfg key sender st0 ops st log i j,
+    crypto_ok P /\ start cfg key sender = Some st0 /\ run_with pinned P st0 ops = Some (st, log)
+    /\ NoDup (sender :: op_senders ops)
     /\ In i log /\ In j log /\ is_nonce i = is_nonce j /\ is_sess i <> is_sess j.
-Proof. exact nonce_reuse_after_restart. Qed.
+Proof. exact nonce_reuse_pinned. Qed.
+
+Theorem C20_nonces_fresh_pinned_refuted : ~ nonces_fresh_on pinned.
+Proof. exact nonces_fresh_pinned_refuted. Qed.
 
 (** The hypotheses can be met together *)
 Theorem C20_toy_crypto_ok : forall norms creds,
@@ -142,17 +178,21 @@ Print Assumptions C20_authn_shapes_recognised.
 Print Assumptions C20_chain_shapes_recognised.
 Print Assumptions C20_auth_identity.
 Print Assumptions C20_auth_identity_strict.
-Print Assumptions C20_auth_identity_any_run.
-Print Assumptions C20_auth_identity_restart_refuted.
+Print Assumptions C20_auth_identity_pinned_refuted.
 Print Assumptions C20_token_valid_forever.
+Print Assumptions C20_removed_user_token_refused.
 Print Assumptions C20_login_iff.
-Print Assumptions C20_login_sound.
-Print Assumptions C20_login_identity_refuted.
-Print Assumptions C20_login_complete_refuted.
+Print Assumptions C20_login_identity.
+Print Assumptions C20_login_complete.
+Print Assumptions C20_login_needs_salt_name.
+Print Assumptions C20_login_identity_pinned_refuted.
+Print Assumptions C20_login_complete_pinned_refuted.
 Print Assumptions C20_bad_credential_no_gain.
 Print Assumptions C20_refused_everywhere.
 Print Assumptions C20_bad_credential_unix_peer.
 Print Assumptions C20_other_instance_token_rejected.
 Print Assumptions C20_nonces_fresh.
-Print Assumptions C20_nonce_reuse_after_restart.
+Print Assumptions C20_issued_under_own_nonce.
+Print Assumptions C20_nonce_reuse_pinned.
+Print Assumptions C20_nonces_fresh_pinned_refuted.
 Print Assumptions C20_toy_crypto_ok.
